@@ -7,7 +7,8 @@ PROPERTY = "C10"
 def tasks(tier):
     return (contract_tasks("contracts.scheduler", "C10", tier=tier) + contract_tasks("contracts.sim_process", "C10", tier=tier)
             + contract_tasks("contracts.progress", "C10", tier=tier) + lemma_tasks("contracts.progress", "C10")
-            + contract_tasks("contracts.connect", "C10", tier=tier) + other_tasks("contracts.determinism_bounded", "C10", "bounded"))
+            + contract_tasks("contracts.connect", "C10", tier=tier) + other_tasks("contracts.determinism_bounded", "C10", "bounded")
+            + contract_tasks("contracts.tiered_time", "C08"))
 
 
 TRUSTED_BASE = TRUSTED_CORE
